@@ -41,6 +41,21 @@ def run(ctx, rep):
     rep.rule('C18.R2', 'cmp: lexicographic sign on every path, decided from comparisons only, no wrap')
     rep.rule('C18.R3', 'ms/us/s_ns: exact conversion for every 32-bit argument, no wrap')
     rep.rule('C18.R4', 'constants zero and no_deadline')
+    check(ctx, rep, {'addsub': 'C18.R1', 'cmp': 'C18.R2', 'conv': 'C18.R3', 'const': 'C18.R4'})
+    rep.floor('C18.R1', 8)
+    rep.floor('C18.R2', 10)
+    rep.floor('C18.R3', 6)
+    rep.assumptions += ['seconds stay within +/-2^61 for add/sub (overflow of the seconds field is excluded by the statement)',
+                        'time_t is 64-bit signed, nanoseconds field is long (from the IR signatures)',
+                        '(a+b)-b = a and totality of the order follow from exactness and the uniqueness of the normalised representation']
+    return rep.finish(
+        explanation='Symbolic evaluation to closed affine forms with path constraints (engine E4) of the time functions in the C and C++ builds; identities are compared coefficient-wise, ranges by interval arithmetic refined with the path constraints.',
+        trusted_base=['clang 14 IR + sroa', 'nsa/affine.py'])
+
+def check(ctx, rep, RID, addsub=(('nsync_time_add', 1), ('nsync_time_sub', -1))):
+    """RID maps the parts {'addsub','cmp','conv','const'} to the rule ids they are reported under; parts not in RID are skipped
+    (C15 reuses 'addsub' restricted to add, and 'cmp', for the deadline values the library computes and compares)."""
+    R1, R2, R3, R4 = RID.get('addsub'), RID.get('cmp'), RID.get('conv'), RID.get('const')
     for cfgname in ('C', 'CXX'):
         mod = ctx.mod(cfgname)
         ev = Evaluator(mod, inline=('nsync_time_s_ns', 'nsync_time_us', 'nsync_time_ms'))
@@ -56,7 +71,7 @@ def run(ctx, rep):
         def where(f):
             return '%s:%d in %s' % (IR.rel(f.file), f.line, f.srcname)
         # ---- add / sub
-        for name, sign in (('nsync_time_add', 1), ('nsync_time_sub', -1)):
+        for name, sign in (addsub if R1 else ()):
             f = fn_of(name)
             A = [Aff({'a.sec': 1}), Aff({'a.nsec': 1}), Aff({'b.sec': 1}), Aff({'b.nsec': 1})]
             ranges = {'a.sec': (SEC_LO, SEC_HI), 'b.sec': (SEC_LO, SEC_HI), 'a.nsec': (0, NS - 1), 'b.nsec': (0, NS - 1)}
@@ -77,96 +92,90 @@ def run(ctx, rep):
                     msgs.append('result nanoseconds range over [%d, %d], not normalised to [0, 1e9)' % (lo, hi))
                 msgs += [m for _, m in p.issues]
                 desc = '%s %s path {%s}: sec=%s nsec=%s in [%d,%d]' % (tag, name, '; '.join('%s %s 0' % (c, o) for c, o in p.cons), sec, nsec, lo, hi)
-                rep.instance('C18.R1', desc)
-                rep.oblig('C18.R1', not msgs)
+                rep.instance(R1, desc)
+                rep.oblig(R1, not msgs)
                 for m in msgs:
-                    rep.violate(Violation('C18.R1', where(f), '%s %s on the path {%s}: %s' % (tag, name, '; '.join('%s %s 0' % (c, o) for c, o in p.cons), m),
+                    rep.violate(Violation(R1, where(f), '%s %s on the path {%s}: %s' % (tag, name, '; '.join('%s %s 0' % (c, o) for c, o in p.cons), m),
                                           site='%s/%s-exact' % (f.srcname, cfgname)))
         # ---- cmp
-        f = fn_of('nsync_time_cmp')
-        A = [Aff({'a.sec': 1}), Aff({'a.nsec': 1}), Aff({'b.sec': 1}), Aff({'b.nsec': 1})]
-        ranges = {'a.sec': I64, 'b.sec': I64, 'a.nsec': I64, 'b.nsec': I64}
-        paths = ev.run(f, A, ranges)
-        for p, rv in paths:
-            msgs = [m for _, m in p.issues]
-            d1 = p.interval(A[0] - A[2])
-            d2 = p.interval(A[1] - A[3])
-            def sgn(iv):
-                lo, hi = iv
-                if lo > 0: return 1
-                if hi < 0: return -1
-                if lo == hi == 0: return 0
-                return None
-            s1, s2 = sgn(d1), sgn(d2)
-            want = s1 if s1 != 0 else s2
-            if s1 is None or want is None:
-                msgs.append('returns %s without having determined the order of the %s' % (rv, 'seconds' if s1 is None else 'nanoseconds (seconds equal)'))
-            elif not (isinstance(rv, Aff) and rv.is_const()):
-                msgs.append('the result is not a constant on this path (%s)' % (rv,))
-            else:
-                got = rv.k - (1 << 32) if rv.k >= (1 << 31) else rv.k
-                if (got > 0) - (got < 0) != want or got not in (-1, 0, 1):
-                    msgs.append('returns %d where the lexicographic order gives %d' % (got, want))
-            rep.instance('C18.R2', '%s cmp path {%s} -> %s' % (tag, '; '.join('%s %s 0' % (c, o) for c, o in p.cons), rv))
-            rep.oblig('C18.R2', not msgs)
-            for m in msgs:
-                rep.violate(Violation('C18.R2', where(f), '%s nsync_time_cmp on the path {%s}: %s' % (tag, '; '.join('%s %s 0' % (c, o) for c, o in p.cons), m),
-                                      site='%s/%s-order' % (f.srcname, cfgname)))
-        # ---- ms / us / s_ns
-        for name, unit in (('nsync_time_ms', 1000000), ('nsync_time_us', 1000)):
-            f = fn_of(name)
-            x = Aff({'x': 1})
-            paths = ev.run(f, [x], {'x': (0, (1 << 32) - 1)})
+        if R2:
+            f = fn_of('nsync_time_cmp')
+            A = [Aff({'a.sec': 1}), Aff({'a.nsec': 1}), Aff({'b.sec': 1}), Aff({'b.nsec': 1})]
+            ranges = {'a.sec': I64, 'b.sec': I64, 'a.nsec': I64, 'b.nsec': I64}
+            paths = ev.run(f, A, ranges)
             for p, rv in paths:
                 msgs = [m for _, m in p.issues]
-                if not (isinstance(rv, tuple) and len(rv) == 2):
-                    raise AnalysisBroken('C18: %s does not return a pair' % name)
-                sec, nsec = rv
-                total = subst(sec.scale(NS) + nsec, p)
-                want = subst(x.scale(unit), p)
-                lo, hi = p.interval(nsec)
-                if not (total == want):
-                    msgs.append('1e9*sec+nsec = %s differs from %d*arg = %s' % (total, unit, want))
-                if lo < 0 or hi > NS - 1:
-                    msgs.append('nanoseconds range over [%d, %d]' % (lo, hi))
-                rep.instance('C18.R3', '%s %s: sec=%s nsec=%s' % (tag, name, sec, nsec))
-                rep.oblig('C18.R3', not msgs)
+                d1 = p.interval(A[0] - A[2])
+                d2 = p.interval(A[1] - A[3])
+                def sgn(iv):
+                    lo, hi = iv
+                    if lo > 0: return 1
+                    if hi < 0: return -1
+                    if lo == hi == 0: return 0
+                    return None
+                s1, s2 = sgn(d1), sgn(d2)
+                want = s1 if s1 != 0 else s2
+                if s1 is None or want is None:
+                    msgs.append('returns %s without having determined the order of the %s' % (rv, 'seconds' if s1 is None else 'nanoseconds (seconds equal)'))
+                elif not (isinstance(rv, Aff) and rv.is_const()):
+                    msgs.append('the result is not a constant on this path (%s)' % (rv,))
+                else:
+                    got = rv.k - (1 << 32) if rv.k >= (1 << 31) else rv.k
+                    if (got > 0) - (got < 0) != want or got not in (-1, 0, 1):
+                        msgs.append('returns %d where the lexicographic order gives %d' % (got, want))
+                rep.instance(R2, '%s cmp path {%s} -> %s' % (tag, '; '.join('%s %s 0' % (c, o) for c, o in p.cons), rv))
+                rep.oblig(R2, not msgs)
                 for m in msgs:
-                    rep.violate(Violation('C18.R3', where(f), '%s %s: %s' % (tag, name, m), site='%s/%s-exact' % (f.srcname, cfgname)))
-        f = fn_of('nsync_time_s_ns')
-        s_, n_ = Aff({'s': 1}), Aff({'ns': 1})
-        for p, rv in ev.run(f, [s_, n_], {'s': I64, 'ns': (0, (1 << 32) - 1)}):
-            ok = isinstance(rv, tuple) and rv[0] == s_ and rv[1] == n_ and not p.issues
-            rep.instance('C18.R3', '%s nsync_time_s_ns -> %s' % (tag, rv))
-            rep.oblig('C18.R3', ok)
-            if not ok:
-                rep.violate(Violation('C18.R3', where(f), '%s nsync_time_s_ns does not return (s, ns): %s' % (tag, rv), site='%s/%s-exact' % (f.srcname, cfgname)))
+                    rep.violate(Violation(R2, where(f), '%s nsync_time_cmp on the path {%s}: %s' % (tag, '; '.join('%s %s 0' % (c, o) for c, o in p.cons), m),
+                                          site='%s/%s-order' % (f.srcname, cfgname)))
+        # ---- ms / us / s_ns
+        if R3:
+            for name, unit in (('nsync_time_ms', 1000000), ('nsync_time_us', 1000)):
+                f = fn_of(name)
+                x = Aff({'x': 1})
+                paths = ev.run(f, [x], {'x': (0, (1 << 32) - 1)})
+                for p, rv in paths:
+                    msgs = [m for _, m in p.issues]
+                    if not (isinstance(rv, tuple) and len(rv) == 2):
+                        raise AnalysisBroken('C18: %s does not return a pair' % name)
+                    sec, nsec = rv
+                    total = subst(sec.scale(NS) + nsec, p)
+                    want = subst(x.scale(unit), p)
+                    lo, hi = p.interval(nsec)
+                    if not (total == want):
+                        msgs.append('1e9*sec+nsec = %s differs from %d*arg = %s' % (total, unit, want))
+                    if lo < 0 or hi > NS - 1:
+                        msgs.append('nanoseconds range over [%d, %d]' % (lo, hi))
+                    rep.instance(R3, '%s %s: sec=%s nsec=%s' % (tag, name, sec, nsec))
+                    rep.oblig(R3, not msgs)
+                    for m in msgs:
+                        rep.violate(Violation(R3, where(f), '%s %s: %s' % (tag, name, m), site='%s/%s-exact' % (f.srcname, cfgname)))
+            f = fn_of('nsync_time_s_ns')
+            s_, n_ = Aff({'s': 1}), Aff({'ns': 1})
+            for p, rv in ev.run(f, [s_, n_], {'s': I64, 'ns': (0, (1 << 32) - 1)}):
+                ok = isinstance(rv, tuple) and rv[0] == s_ and rv[1] == n_ and not p.issues
+                rep.instance(R3, '%s nsync_time_s_ns -> %s' % (tag, rv))
+                rep.oblig(R3, ok)
+                if not ok:
+                    rep.violate(Violation(R3, where(f), '%s nsync_time_s_ns does not return (s, ns): %s' % (tag, rv), site='%s/%s-exact' % (f.srcname, cfgname)))
         # ---- constants
-        for gname, want in (('nsync_time_zero', (0, 0)), ('nsync_time_no_deadline', ((1 << 63) - 1, NS - 1))):
-            g = None
-            for n, gg in mod.globals.items():
-                if gg.get('srcname') == gname or n == gname:
-                    g = gg
-            if g is None or 'init' not in g:
-                raise AnalysisBroken('C18: constant %s not found in %s' % (gname, cfgname))
-            init = g['init']
-            if init.get('k') == 'zero':
-                got = (0, 0)
-            elif init.get('k') == 'agg':
-                got = tuple(e.get('v') for e in init['elts'])
-            else:
-                got = None
-            ok = got == want and g.get('const')
-            rep.instance('C18.R4', '%s %s = %s' % (tag, gname, got))
-            rep.oblig('C18.R4', bool(ok))
-            if not ok:
-                rep.violate(Violation('C18.R4', '%s:%s' % (IR.rel(g.get('file', '?')), g.get('line', 0)), '%s %s is %s, expected %s (constant)' % (tag, gname, got, want), site='%s/%s-const' % (gname, cfgname)))
-    rep.floor('C18.R1', 8)
-    rep.floor('C18.R2', 10)
-    rep.floor('C18.R3', 6)
-    rep.assumptions += ['seconds stay within +/-2^61 for add/sub (overflow of the seconds field is excluded by the statement)',
-                        'time_t is 64-bit signed, nanoseconds field is long (from the IR signatures)',
-                        '(a+b)-b = a and totality of the order follow from exactness and the uniqueness of the normalised representation']
-    return rep.finish(
-        explanation='Symbolic evaluation to closed affine forms with path constraints (engine E4) of the time functions in the C and C++ builds; identities are compared coefficient-wise, ranges by interval arithmetic refined with the path constraints.',
-        trusted_base=['clang 14 IR + sroa', 'nsa/affine.py'])
+        if R4:
+            for gname, want in (('nsync_time_zero', (0, 0)), ('nsync_time_no_deadline', ((1 << 63) - 1, NS - 1))):
+                g = None
+                for n, gg in mod.globals.items():
+                    if gg.get('srcname') == gname or n == gname:
+                        g = gg
+                if g is None or 'init' not in g:
+                    raise AnalysisBroken('C18: constant %s not found in %s' % (gname, cfgname))
+                init = g['init']
+                if init.get('k') == 'zero':
+                    got = (0, 0)
+                elif init.get('k') == 'agg':
+                    got = tuple(e.get('v') for e in init['elts'])
+                else:
+                    got = None
+                ok = got == want and g.get('const')
+                rep.instance(R4, '%s %s = %s' % (tag, gname, got))
+                rep.oblig(R4, bool(ok))
+                if not ok:
+                    rep.violate(Violation(R4, '%s:%s' % (IR.rel(g.get('file', '?')), g.get('line', 0)), '%s %s is %s, expected %s (constant)' % (tag, gname, got, want), site='%s/%s-const' % (gname, cfgname)))
